@@ -96,19 +96,166 @@ class SimLock:
         self.release()
 
 
+class SimEvent:
+    """threading.Event for code under selfies/: wait() yields to the scheduler."""
+
+    def __init__(self):
+        self._flag = False
+        self._real = _real_event()
+
+    def is_set(self):
+        return self._flag
+
+    isSet = is_set
+
+    def set(self):
+        self._flag = True
+        self._real.set()
+        if _S is not None:
+            _S.unblock(self)
+
+    def clear(self):
+        self._flag = False
+        self._real.clear()
+
+    def wait(self, timeout=None):
+        tid = getattr(_tl, "tid", None)
+        S = _S
+        if tid is None or S is None:
+            if not self._real.wait(8.0 if timeout is None else min(timeout, 8.0)) and timeout is None:
+                raise RuntimeError("selfies event never set by a call that has returned")
+            return self._flag
+        S.lock_ops += 1
+        while not self._flag:
+            if not S.block(tid, self, timed=timeout is not None):
+                break              # nothing else can run: the (simulated) time-out elapses
+        return self._flag
+
+
+class SimCondition:
+    """threading.Condition for code under selfies/ (over a simulator-aware lock)."""
+
+    def __init__(self, lock=None):
+        self._lock = lock if lock is not None else SimLock(True)
+        self.acquire = self._lock.acquire
+        self.release = self._lock.release
+        self._waiters = []
+
+    def __enter__(self):
+        return self._lock.acquire()
+
+    def __exit__(self, *a):
+        self._lock.release()
+
+    def wait(self, timeout=None):
+        tid = getattr(_tl, "tid", None)
+        S = _S
+        if tid is None or S is None:
+            raise RuntimeError("selfies condition waited on outside the simulated threads")
+        token = object()
+        self._waiters.append(token)
+        depth = self._lock.count if isinstance(self._lock, SimLock) else 1
+        for _ in range(depth):
+            self._lock.release()
+        ok = True
+        while token in self._waiters:
+            if not S.block(tid, token, timed=timeout is not None):
+                self._waiters.remove(token)
+                ok = False
+        for _ in range(depth):
+            self._lock.acquire()
+        return ok
+
+    def wait_for(self, predicate, timeout=None):
+        r = predicate()
+        while not r:
+            if not self.wait(timeout):
+                return predicate()
+            r = predicate()
+        return r
+
+    def notify(self, n=1):
+        for token in self._waiters[:n]:
+            self._waiters.remove(token)
+            if _S is not None:
+                _S.unblock(token)
+
+    def notify_all(self):
+        self.notify(len(self._waiters))
+
+    notifyAll = notify_all
+
+
+class SimSemaphore:
+    def __init__(self, value=1):
+        self._value = value
+
+    def acquire(self, blocking=True, timeout=None):
+        tid = getattr(_tl, "tid", None)
+        S = _S
+        if tid is None or S is None:
+            if self._value > 0:
+                self._value -= 1
+                return True
+            if not blocking:
+                return False
+            raise RuntimeError("selfies semaphore exhausted by calls that have returned")
+        while self._value <= 0:
+            if not blocking:
+                return False
+            if not S.block(tid, self, timed=timeout is not None):
+                return False
+        self._value -= 1
+        return True
+
+    def release(self, n=1):
+        self._value += n
+        if _S is not None:
+            _S.unblock(self)
+
+    __enter__ = acquire
+
+    def __exit__(self, *a):
+        self.release()
+
+
+_real_event = threading.Event
+_real_condition = threading.Condition
+_real_semaphore = threading.Semaphore
+_real_bsemaphore = threading.BoundedSemaphore
+
+
+def _from_selfies(depth=2):
+    mod = sys._getframe(depth).f_globals.get("__name__", "")
+    return mod == "selfies" or mod.startswith("selfies.")
+
+
 def install_lock_seam():
-    """Before selfies is imported: Lock()/RLock() called from a module under
-    selfies return simulator-aware locks; everybody else gets the real thing."""
+    """Before selfies is imported: Lock / RLock / Event / Condition / Semaphore created by a
+    module under selfies are simulator-aware (blocking yields to the scheduler instead of blocking
+    the process while the other party is parked); everybody else gets the real thing."""
     def factory(reentrant, real):
         def make(*a, **kw):
-            f = sys._getframe(1)
-            mod = f.f_globals.get("__name__", "")
-            if mod == "selfies" or mod.startswith("selfies."):
+            if _from_selfies():
                 return SimLock(reentrant)
             return real(*a, **kw)
         return make
+
+    def cls_factory(sim, real):
+        class Dispatch:
+            def __new__(cls, *a, **kw):
+                if _from_selfies():
+                    return sim(*a, **kw)
+                return real(*a, **kw)
+        Dispatch.__name__ = real.__name__
+        return Dispatch
+
     threading.Lock = factory(False, _real_lock)
     threading.RLock = factory(True, _real_rlock)
+    threading.Event = cls_factory(SimEvent, _real_event)
+    threading.Condition = cls_factory(SimCondition, _real_condition)
+    threading.Semaphore = cls_factory(SimSemaphore, _real_semaphore)
+    threading.BoundedSemaphore = cls_factory(SimSemaphore, _real_bsemaphore)
 
 
 # ---------------------------------------------------------------------------
@@ -517,15 +664,22 @@ class Sched:
             self.current = nxt
             self.sems[nxt].release()
 
-    def block(self, tid, lock):
+    def block(self, tid, lock, timed=False):
+        """The running thread waits for `lock` (a lock, event, condition token ...).  Returns True
+        when it has been rescheduled; with timed=True returns False instead of declaring a deadlock
+        when nobody else can run (the wait's time-out elapses in simulated time)."""
         self.blocked[tid] = lock
         nxt = self.pick_next(tid)
         if nxt is None:
+            if timed:
+                self.blocked[tid] = None
+                return False
             self.outcome = "deadlock"
             self._finish()
             self.sems[tid].acquire()    # parked for good
         self._record(tid, nxt, "block", None, None)
         self._handover(tid, nxt)
+        return True
 
     def unblock(self, lock):
         for i in range(self.n):
